@@ -14,12 +14,12 @@ TECHNIQUE = 'runtime monitor: post-condition contract on parse_sql + exception c
 RULE = ('cases = corpus + templates (all statement kinds) x 3 dialects, single/double token mutations, truncations, '
         'garbage splices, token soups, unicode noise, nesting up to depth 40; non-trivial = input reached a grammar '
         'action or the error reporter; distinct by (dialect, token-type sequence)')
-RULE += '; also: lexer-level mutations (glued tokens, re-layout, comments, number edges, long error tails, comment sandwiches), grammar-derived sentences, case variants'
+RULE += '; long runs of one repeated unit (30-3000 repetitions) at the start, inline, on a line of their own, inside literals / comments and at the end; also: lexer-level mutations (glued tokens, re-layout, comments, number edges, long error tails, comment sandwiches), grammar-derived sentences, case variants'
 ASSUMPTIONS = ['"reasonably sized" = at most 400 tokens and nesting depth <= 40',
-               'terminates = stays under a logical budget of 2e5 + 5e3*len(tokens) Python calls inside the library']
+               'terminates = stays under a logical budget of 2e5 + 5e3*len(tokens) Python calls inside the library and under 20 s of CPU time (ITIMER_VIRTUAL) per call']
 BUDGET = {'quick': (16, 240), 'thorough': (16, 1800)}
-SIZES = {'quick': dict(n_templates=4000, n_mut=60000, n_soup=8000, n_gram=20000, n_lexeme=12000, lexeme_extra=True),
-         'thorough': dict(n_templates=12000, n_mut=400000, n_soup=60000, n_gram=150000, n_lexeme=80000, lexeme_extra=True)}
+SIZES = {'quick': dict(n_templates=4000, n_mut=60000, n_soup=8000, n_gram=20000, n_lexeme=12000, lexeme_extra=True, n_runs=3000),
+         'thorough': dict(n_templates=12000, n_mut=400000, n_soup=60000, n_gram=150000, n_lexeme=80000, lexeme_extra=True, n_runs=20000)}
 
 
 def floors(tier):
@@ -40,7 +40,10 @@ def signature(e, parser_prod, in_reporter, dialect):
             'msgclass': c['msgclass'][:40]}
 
 
-def run_one(dialect, text, steps):
+CPU_LIMIT_S = 20.0      # CPU seconds for one parse_sql call (inputs here parse in milliseconds)
+
+
+def run_one(dialect, text, steps, dog=None):
     """Execute parse_sql under the monitors.  Returns (outcome, sig, detail, rec)."""
     from mindsdb_sql import parse_sql
     from mindsdb_sql.parser.ast.base import ASTNode
@@ -49,12 +52,18 @@ def run_one(dialect, text, steps):
     budget = 200000 + 5000 * min(ntok_guess, 2000)
     with monitors.monitored_parse() as rec:
         steps.start(budget)
+        n = -1
         try:
             try:
+                if dog is not None:
+                    dog.start(CPU_LIMIT_S)
                 res = parse_sql(text, dialect)
                 exc = None
             finally:
+                used = CPU_LIMIT_S - dog.stop() if dog is not None else 0.0
                 n = steps.stop()
+        except monitors.CpuBudgetExceeded:
+            return 'violation', {'kind': 'no-result-within-cpu-limit', 'limit_s': CPU_LIMIT_S, 'size': 'under-4k' if len(text) < 4096 else 'over-4k'}, {'steps': n, 'chars': len(text)}, rec, n
         except monitors.StepBudgetExceeded as e:
             return 'violation', {'kind': 'step-budget-exceeded', 'dialect': dialect}, {'steps': n, 'budget': budget}, rec, n
         except allowed_exceptions() as e:
@@ -88,13 +97,14 @@ def run_one(dialect, text, steps):
 def run_shard(ctx):
     monitors.install_parser_monitors()
     steps = monitors.StepCounter()
+    dog = monitors.CpuWatchdog()
     acc = ctx.acc
     wl = Workload(ctx, **SIZES[ctx.tier])
     for idx, label, dialect, text in wl.cases():
         if ctx.out_of_time():
             acc.notes.append(f'shard {ctx.shard}: time budget hit at case {idx}')
             break
-        outcome, sig, detail, rec, n = run_one(dialect, text, steps)
+        outcome, sig, detail, rec, n = run_one(dialect, text, steps, dog)
         acc.ev()
         acc.count('class:' + label.split(':')[0])
         acc.add('dialects', dialect)
